@@ -911,6 +911,49 @@ static void runHrpdac(const Case &c) {
   delete d;
 }
 
+// HASHRPF as its query layer sees it: table, grammar, terminator, the whole symbol sequence and the offset
+// stored in every occupied cell; re-validated by the Lean driver (`hfchk`).
+#include "StringDictionaryHASHRPF.h"
+static void runHrpf(const Case &c) {
+  size_t len = 0;
+  uchar *buf = plain(c.strs, len, 1);
+  StringDictionaryHASHRPF *d = new StringDictionaryHASHRPF(new IteratorDictStringPlain(buf, len), (uint)len, (int)c.geti("ov", 25));
+  for (auto &op : c.ops) {
+    g_op++;
+    if (op[0] == "reload") {
+      std::stringstream ss(std::ios::in | std::ios::out | std::ios::binary);
+      d->save(ss);
+      StringDictionary *d2 = StringDictionaryHASHRPF::load(ss, 1);
+      delete d; d = (StringDictionaryHASHRPF *)d2;
+      emit("RQ reloaded");
+    } else if (op[0] == "hf") { // hf <query hex,...|->
+      RePair *rp = d->rp;
+      string rules, cls, loc, qa, occ, offs;
+      for (uint64_t k = 0; k < rp->rules; k++)
+        rules += (k ? "," : "") + std::to_string(rp->G->getField(2 * k)) + ":" + std::to_string(rp->G->getField(2 * k + 1));
+      for (size_t i = 0; i < rp->Cls->getNumberOfElements(); i++) cls += (i ? "," : "") + std::to_string(rp->Cls->getField(i));
+      for (size_t i = 0; i < d->hash->tsize; i++) {
+        bool o = d->hash->b_ht->access(i);
+        occ += o ? '1' : '0';
+        if (o) offs += (offs.empty() ? "" : ",") + std::to_string(d->hash->getValuePos(i));
+      }
+      for (size_t i = 0; i < c.strs.size(); i++) {
+        string q = c.strs[i]; q.push_back('\0');
+        loc += (i ? "," : "") + std::to_string(d->locate((uchar *)q.data(), (uint)c.strs[i].size()));
+      }
+      if (op.size() > 1 && op[1] != "-")
+        for (auto &h : splitc(op[1])) {
+          string q = unhex(h); size_t n = q.size(); q.push_back('\0');
+          qa += (qa.empty() ? "" : ",") + std::to_string(d->locate((uchar *)q.data(), (uint)n));
+        }
+      emit("HF ts=%zu occ=%s t=%llu mc=%u rules=%s cls=%s offs=%s loc=%s abs=%s", (size_t)d->hash->tsize, occ.empty() ? "-" : occ.c_str(),
+           (unsigned long long)rp->terminals, (unsigned)rp->maxchar, rules.empty() ? "-" : rules.c_str(), cls.empty() ? "-" : cls.c_str(),
+           offs.empty() ? "-" : offs.c_str(), loc.empty() ? "-" : loc.c_str(), qa.empty() ? "-" : qa.c_str());
+    } else emit("ERR unknown-op");
+  }
+  delete d;
+}
+
 // ---------------------------------------------------------------------------
 static void runCase(const Case &c) {
   if (c.stream == "dict") runDict(c);
@@ -921,7 +964,7 @@ static void runCase(const Case &c) {
   else if (c.stream == "bits") runBits(c);
   else if (c.stream == "repair") runRePair(c);
   else if (c.stream == "dac") runDac(c);
-  else if (c.stream == "rpdac") { if (c.kind == "HASHRPDAC") runHrpdac(c); else runRpdac(c); }
+  else if (c.stream == "rpdac") { if (c.kind == "HASHRPDAC") runHrpdac(c); else if (c.kind == "HASHRPF") runHrpf(c); else runRpdac(c); }
   else emit("ERR unknown-stream %s", c.stream.c_str());
 }
 
